@@ -1145,6 +1145,9 @@ async def _send(world: World, client: SimBroker, m: dict) -> None:
                 world.fired("unknown_task")
             task = client.find_task(tname)
             assert task is not None, tname
+            if m.get("via_default_broker"):
+                from taskiq.brokers.shared_broker import async_shared_broker
+                async_shared_broker.default_broker(client)
             kicker = task.kicker()
             labels = {name: dec_label(v) for name, v in (m.get("labels") or {}).items()}
             if m.get("timeout") is not None:
@@ -1242,6 +1245,14 @@ async def _main(world: World, client_fn: Any) -> None:
                 world.pending_sends -= 1
                 world.rec("send_done", None, k="client_fn")
         loop.create_task(run_client(), context=cctx.copy())
+    # tasks registered late (after the receivers exist), on the shared broker: visible to every broker through the global registry
+    for lt in script.get("late_tasks", []):
+        def register(lt: dict = lt) -> None:
+            from taskiq.brokers.shared_broker import async_shared_broker
+            async_shared_broker.register_task(make_task_func(world, lt), task_name=lt["name"])
+            world.fired("late_registration")
+            world.rec("late_task_registered", None, name=lt["name"])
+        loop.call_at_us(lt.get("at_us", 0), register, context=world.harness_ctx)
     # ops
     for op in script.get("ops", []):
         _arm_op(world, op)
